@@ -401,6 +401,9 @@ type GuardInfo struct {
 	TypeName, Field string
 	Heaps           map[string]string // guarded heaps (map heaps MP./MV.) -> sort
 	Maps            []*types.Map      // the guarded map types
+	Fields          map[string]int    // guarded non-map fields of the same object (name -> field index)
+	ContT           types.Type
+	LockIdx         int
 	Inv             *CExpr
 	InvText         string
 }
@@ -427,6 +430,25 @@ func (p *Program) guardFor(contT types.Type, field string) *GuardInfo {
 	defer p.mu.Unlock()
 	p.loadGuards()
 	return p.guards[shortName(types.TypeString(types.Unalias(contT), nil))+"#"+field]
+}
+
+// fieldGuard: the guard declaration protecting field idx of container type contT (nil when unguarded).
+func (p *Program) fieldGuard(contT types.Type, idx int) *GuardInfo {
+	p.mu.Lock()
+	defer p.mu.Unlock()
+	p.loadGuards()
+	tn := shortName(types.TypeString(types.Unalias(contT), nil))
+	for _, g := range p.guardList {
+		if g.TypeName != tn {
+			continue
+		}
+		for _, i := range g.Fields {
+			if i == idx {
+				return g
+			}
+		}
+	}
+	return nil
 }
 
 // guardsOfHeap: the guard declarations protecting a map heap.
@@ -471,11 +493,19 @@ func (p *Program) loadGuards() {
 		if !ok {
 			continue
 		}
-		g := &GuardInfo{TypeName: shortName(types.TypeString(types.Unalias(T), nil)), Field: strings.TrimSpace(parts[0]), Heaps: map[string]string{}}
+		g := &GuardInfo{TypeName: shortName(types.TypeString(types.Unalias(T), nil)), Field: strings.TrimSpace(parts[0]), Heaps: map[string]string{}, Fields: map[string]int{}, ContT: T, LockIdx: -1}
+		for i := 0; i < st.NumFields(); i++ {
+			if st.Field(i).Name() == g.Field {
+				g.LockIdx = i
+			}
+		}
 		for _, f := range strings.Split(parts[1], ",") {
 			f = strings.TrimSpace(f)
 			for i := 0; i < st.NumFields(); i++ {
 				if st.Field(i).Name() == f {
+					if _, isMap := types.Unalias(st.Field(i).Type()).Underlying().(*types.Map); !isMap {
+						g.Fields[f] = i
+					}
 					all := map[string]string{}
 					reachableHeaps(st.Field(i).Type(), all, map[string]bool{})
 					for k, v := range all {
@@ -654,6 +684,28 @@ func (e *Exec) lockCheck(p *Ptr, write bool) {
 	if e.onAccess != nil && !e.silent {
 		e.onAccess(e, p, write)
 	}
+	// fields declared as guarded by a mutex of the same object
+	if e.silent || p.Kind != PHeap || len(p.Path) == 0 || p.Path[0].Idx != nil || p.Path[0].ContT == nil {
+		return
+	}
+	gi := e.P.fieldGuard(p.Path[0].ContT, p.Path[0].Field)
+	if gi == nil || gi.LockIdx < 0 {
+		return
+	}
+	// an object this function allocated itself is being initialised, not shared yet (publication is not tracked)
+	if b, _, ok := refBase(p.Ref); ok && strings.HasPrefix(b, "ac!") {
+		e.vc.Trusted["locks: fields of an object allocated by the function itself are initialised without its lock (the object is taken as unpublished while the function builds it)"] = true
+		return
+	}
+	lock := &Ptr{Kind: PHeap, Ref: p.Ref, Base: p.Base, Typ: p.Typ, Path: []PathEl{{Field: gi.LockIdx, ContT: p.Path[0].ContT}}}
+	k := lockKey(lock)
+	level := int64(1)
+	mode := "read"
+	if write {
+		level, mode = 2, "write"
+	}
+	cur := e.heldGet(k, gi)
+	e.check("lock", IntLe(IntLit(level), cur), "access to a field guarded by "+gi.TypeName+"."+gi.Field+" needs the lock held for "+mode)
 }
 
 // newHash: a fresh hash object (interface value) with digest size sz, constructor fn and (for HMAC) key.
@@ -1112,6 +1164,25 @@ func reachableMaps(t types.Type, out *[]*types.Map, seen map[string]bool) {
 
 // havocGuarded: the state protected by a declared lock becomes arbitrary up to well-formedness and the lock invariant.
 func (e *Exec) havocGuarded(lock Val, gi *GuardInfo) {
+	if lp, ok := lock.(*Ptr); ok && len(gi.Fields) > 0 && len(lp.Path) > 0 {
+		st, _ := types.Unalias(gi.ContT).Underlying().(*types.Struct)
+		var names []string
+		for n := range gi.Fields {
+			names = append(names, n)
+		}
+		sort.Strings(names)
+		ws := e.silent
+		e.silent = true
+		for _, n := range names {
+			idx := gi.Fields[n]
+			fp := *lp
+			fp.Path = append(append([]PathEl(nil), lp.Path[:len(lp.Path)-1]...), PathEl{Field: idx, ContT: gi.ContT})
+			fp.Typ = st.Field(idx).Type()
+			fp.NonNil = true
+			e.store(&fp, e.havocVal("g."+n, st.Field(idx).Type(), nil))
+		}
+		e.silent = ws
+	}
 	var hn []string
 	for h := range gi.Heaps {
 		hn = append(hn, h)
